@@ -427,7 +427,7 @@ def replay_sequence(inputs):
     traj, sites, info = hopping_system(seed, n_frames=int(inputs.get('n_frames', 17)), n_diff=2, n_frame_atoms=2, vib=0.04, hop_prob=0.05, interleave=bool(seed % 2))
     view = traj.positions.copy()
     symbols = [s.symbol for s in traj.species]
-    lat = traj.get_lattice().matrix.copy()
+    lat = np.array(traj.lattice, dtype=float).reshape(3, 3).copy()  # the raw cell, not the library's get_lattice()
     meta = dict(traj.metadata)
     bad = []
     ops = inputs.get('ops') or [str(x) for x in rng.choice(['pos', 'disp', 'cum', 'dist', 'filter', 'slice', 'slice_step', 'split', 'split_equal', 'extend', 'drift', 'volume', 'metrics', 'msd', 'index', 'list'], size=int(inputs.get('n_ops', 10)))]
